@@ -18,6 +18,8 @@ import (
 type fromSpec struct {
 	DB, RP, M string
 	K         int // -1: no where; else where "k" == K
+	// Chain: two where() calls on the from() node, "k" >= 1 and then "k" <= 1: both apply (k == 1)
+	Chain bool
 }
 
 type shape struct {
@@ -41,6 +43,9 @@ func (s shape) script(task string) string {
 		}
 		if f.K >= 0 {
 			fmt.Fprintf(&sb, ".where(lambda: \"k\" == %d)", f.K)
+		}
+		if f.Chain {
+			sb.WriteString(".where(lambda: \"k\" >= 1).where(lambda: \"k\" <= 1)")
 		}
 		fmt.Fprintf(&sb, "\nf%d|log().prefix('%s.%d')\n", i, task, i)
 	}
@@ -70,6 +75,7 @@ var shapes = map[string]shape{
 	"m2@both":     {"m2@both", []fromSpec{{M: "m2", K: -1}}, d12},
 	"m1+m1":       {"m1+m1", []fromSpec{{M: "m1", K: -1}, {M: "m1", K: 0}}, d1},
 	"all+all@db2": {"all+all@db2", []fromSpec{{K: -1}, {K: 1}}, d2},
+	"m1.chain":    {"m1.chain", []fromSpec{{M: "m1", K: -1, Chain: true}, {K: -1}}, d12},
 }
 
 var universes = [][3]string{
@@ -80,6 +86,8 @@ var universes = [][3]string{
 	// a task that names one fork key twice next to exactly one other subscriber of that key
 	{"m1+m1", "m1", "all"},
 	{"all+all@db2", "rp1", "db2.m1"},
+	// chained where() calls; a task declaring two db/rps next to tasks declaring one each
+	{"m1.chain", "m1", "m1.k1@db2"},
 }
 
 // ---------------------------------------------------------------- events
@@ -137,6 +145,9 @@ func matches(f fromSpec, db, rp, m string, k int) bool {
 		return false
 	}
 	if f.K >= 0 && f.K != k {
+		return false
+	}
+	if f.Chain && k != 1 {
 		return false
 	}
 	return true
